@@ -123,7 +123,8 @@ MCSLock::LockSIX()  //
 
   qnode->lock_.store(kXLock, kRelaxed);
   const auto cur = lock_.exchange(new_tail | kSIXLock, kAcquire);
-  qnode->lock_.store(cur & kLockMask, kRelaxed);
+  // replace the placeholder flag with the predecessor's flags, keeping a successor's link if any
+  qnode->lock_.fetch_xor(kXLock ^ (cur & kLockMask), kRelaxed);
 
   auto *tail = std::bit_cast<MCSLock *>(cur & kPtrMask);
   if (tail != nullptr) {  // wait until predecessor gives up the lock
@@ -147,7 +148,8 @@ MCSLock::LockX()  //
 
   qnode->lock_.store(kXLock, kRelaxed);
   const auto cur = lock_.exchange(new_tail | kXLock, kAcquire);
-  qnode->lock_.store(cur & kLockMask, kRelaxed);
+  // replace the placeholder flag with the predecessor's flags, keeping a successor's link if any
+  qnode->lock_.fetch_xor(kXLock ^ (cur & kLockMask), kRelaxed);
 
   auto *tail = std::bit_cast<MCSLock *>(cur & kPtrMask);
   if (tail != nullptr) {  // wait until predecessor gives up the lock
